@@ -107,6 +107,62 @@ def _choices(root: ast.AST) -> List[Tuple[ast.AST, ast.AST, ast.AST, ast.AST, as
     return out
 
 
+def _poll_answer(cfg: CFG, t: Node) -> Tuple[Optional[ast.Call], bool]:
+    """(poll call, polarity) when test node t branches on nothing but the answer of `self._poll_pipe_envs(...)`: the call itself or a local every reaching
+    definition of which is that call, under any number of negations (polarity True: the true branch is "every worker answered").  (None, _) otherwise."""
+    e, pol = t.ast, True
+    while isinstance(e, ast.UnaryOp) and isinstance(e.op, ast.Not):
+        e, pol = e.operand, not pol
+    if isinstance(e, ast.Name):
+        vals = [cfg.value_of_def(d, e.id) for d in cfg.defs_reaching(t, e.id)]
+        e = vals[0] if len(vals) == 1 else None
+    if isinstance(e, ast.Call) and call_name(e) == "self._poll_pipe_envs":
+        return e, pol
+    return None, pol
+
+
+def _failed_poll_times_out(cfg: CFG, t: Node) -> bool:
+    """Every normal path that starts on the "poll failed" side of test t ends in `raise mp.TimeoutError(...)` and sets the state to DEFAULT (and to nothing
+    else) on the way — whichever branch of the `if` that side is, and wherever the statements stand (in the branch, or after an `if` whose other branch left)."""
+    call, pol = _poll_answer(cfg, t)
+    if call is None or not isinstance(t.stmt, ast.If):
+        return False
+    normal = [s for s in t.succ if s.id not in t.exc_succ]
+    if pol:
+        failed = [t.false_succ] if t.false_succ is not None else [s for s in normal if s is not t.true_succ]
+    else:
+        failed = [t.true_succ] if t.true_succ is not None else []
+    if not failed:
+        return False
+
+    def timeout_raise(n: Node) -> bool:
+        if not (n.kind == "stmt" and isinstance(n.ast, ast.Raise) and n.ast.exc is not None):
+            return False
+        d = dotted(n.ast.exc.func) if isinstance(n.ast.exc, ast.Call) else dotted(n.ast.exc)
+        return d in ("mp.TimeoutError", "multiprocessing.TimeoutError")
+
+    # states on the way: None = not written since the poll, else the constant last written
+    seen: Set[Tuple[int, Optional[str]]] = set()
+    work: List[Tuple[Node, Optional[str]]] = [(s, None) for s in failed]
+    reached = False
+    while work:
+        n, st = work.pop()
+        if (n.id, st) in seen:
+            continue
+        seen.add((n.id, st))
+        if n is t or n.kind in ("exit", "rexit"):
+            return False  # the failed side goes on (returns, loops back) without reporting the timeout
+        if n.kind == "stmt" and isinstance(n.ast, ast.Raise):
+            if not timeout_raise(n) or st != "AsyncState.DEFAULT":
+                return False
+            reached = True
+            continue
+        if n.kind == "stmt" and isinstance(n.ast, ast.Assign) and any(dotted(x) == "self._state" for x in n.ast.targets):
+            st = dotted(n.ast.value) or "?"
+        work.extend((s, st) for s in n.succ if s.id not in n.exc_succ)
+    return reached
+
+
 def _guard_tests(cfg: CFG, want_const: str, exc: str) -> List[Node]:
     """`if self._state != AsyncState.<want_const>: raise <exc>` test nodes."""
     out = []
@@ -254,18 +310,14 @@ def run(ck: Check, repo: Repo) -> None:
               detail=f"statements that may raise with the state still {const}: lines {lines}; the environment then rejects every further call "
                      f"and close() re-enters {name}() on the stale state",
               construct=f"{name}: implicit-exception exits leave the pending state")
-        # C13.4 timeout branch
-        polls = [n for n in cfg.live_nodes() if n.kind == "test" and any(isinstance(x, ast.Call) and call_name(x) == "self._poll_pipe_envs" for x in n.walk())]
+        # C13.4 timeout branch: the tests that branch on the answer of the poll (the call itself, negated or not, or a local holding it)
+        polls = [n for n in cfg.live_nodes() if n.kind == "test" and (any(isinstance(x, ast.Call) and call_name(x) == "self._poll_pipe_envs" for x in n.walk())
+                                                                      or _poll_answer(cfg, n)[0] is not None)]
         okp = False
         for t in polls:
-            body = t.stmt.body if isinstance(t.stmt, ast.If) else []
-            neg = isinstance(t.ast, ast.UnaryOp) and isinstance(t.ast.op, ast.Not)
-            raises = [s for s in body if isinstance(s, ast.Raise)]
-            sets = [s for s in body if isinstance(s, ast.Assign) and dotted(s.targets[0]) == "self._state" and dotted(s.value) == "AsyncState.DEFAULT"]
-            okp = neg and bool(raises) and bool(sets) and sets[0].lineno < raises[0].lineno and "TimeoutError" in ast.unparse(raises[0].exc) \
-                and ast.unparse(raises[0].exc).startswith("mp.")
+            okp = _failed_poll_times_out(cfg, t)
             ck.ob("C13.4", fn, t.ast, okp, f"{name}: a failed poll resets the state and raises multiprocessing.TimeoutError")
-            call = [x for x in t.walk() if isinstance(x, ast.Call) and call_name(x) == "self._poll_pipe_envs"][0]
+            call = _poll_answer(cfg, t)[0] or [x for x in t.walk() if isinstance(x, ast.Call) and call_name(x) == "self._poll_pipe_envs"][0]
             ck.ob("C13.4", fn, call, bool(call.args) and dotted(call.args[0]) == "timeout", f"{name}: the caller's timeout is the one polled with")
             recvs = _io_nodes(cfg, kinds=("recv",))
             ck.ob("C13.4", fn, t.ast, all(cfg.dominates(t, r) for r in recvs), f"{name}: nothing is received before the poll succeeded")
@@ -278,9 +330,10 @@ def run(ck: Check, repo: Repo) -> None:
     run_r3b(ck, repo)
 
 
-def _queue_fields(cfg: CFG, n: Node, e: ast.AST, path: Tuple[int, ...] = (), seen: Optional[Set] = None) -> Set[str]:
-    """Where the value of expression e at node n comes from: "item[i]..." = field i of a `self.error_queue.get()` result, "none" = the constant
-    None, "?" = anything else.  Names are followed through their reaching definitions, tuples through packing and unpacking."""
+def _queue_fields(cfg: CFG, n: Node, e: ast.AST, path: Tuple[int, ...] = (), seen: Optional[Set] = None, source=None) -> Set[str]:
+    """Where the value of expression e at node n comes from: "item[i]..." = field i of a `self.error_queue.get()` result (or of a call accepted by
+    the predicate `source`), "none" = the constant None, "?" = anything else.  Names are followed through their reaching definitions, tuples
+    through packing, unpacking and slicing with constant bounds."""
     seen = set() if seen is None else seen
     key = (n.id, ast.dump(e), path)
     if key in seen:
@@ -290,13 +343,19 @@ def _queue_fields(cfg: CFG, n: Node, e: ast.AST, path: Tuple[int, ...] = (), see
         out: Set[str] = set()
         for d in cfg.defs_reaching(n, e.id):
             v = cfg.value_of_def(d, e.id)
-            out |= {"?"} if v is None else _queue_fields(cfg, d, v, path, seen)
+            out |= {"?"} if v is None else _queue_fields(cfg, d, v, path, seen, source)
         return out
     if isinstance(e, ast.Subscript) and isinstance(const_value(e.slice), int) and not isinstance(const_value(e.slice), bool):
-        return _queue_fields(cfg, n, e.value, (const_value(e.slice),) + path, seen)
+        return _queue_fields(cfg, n, e.value, (const_value(e.slice),) + path, seen, source)
+    if isinstance(e, ast.Subscript) and isinstance(e.slice, ast.Slice) and path and path[0] >= 0 and (e.slice.step is None or const_value(e.slice.step) == 1):
+        # field i of `x[a:b]` is field a + i of x (constant, non-negative bounds; i < b - a)
+        lo, hi = (0 if b is None else const_value(b) for b in (e.slice.lower, e.slice.upper))
+        if type(lo) is int and lo >= 0 and (e.slice.upper is None or (type(hi) is int and hi >= 0 and lo + path[0] < hi)):
+            return _queue_fields(cfg, n, e.value, (lo + path[0],) + path[1:], seen, source)
+        return {"?"}
     if isinstance(e, (ast.Tuple, ast.List)) and path and not any(isinstance(x, ast.Starred) for x in e.elts):
-        return _queue_fields(cfg, n, e.elts[path[0]], path[1:], seen) if -len(e.elts) <= path[0] < len(e.elts) else {"?"}
-    if isinstance(e, ast.Call) and call_name(e) == "self.error_queue.get":
+        return _queue_fields(cfg, n, e.elts[path[0]], path[1:], seen, source) if -len(e.elts) <= path[0] < len(e.elts) else {"?"}
+    if isinstance(e, ast.Call) and (call_name(e) == "self.error_queue.get" if source is None else source(e)):
         return {"item" + "".join(f"[{i}]" for i in path)}
     if isinstance(e, ast.Constant) and e.value is None:
         return {"none"}
@@ -489,6 +548,7 @@ def _worker(ck: Check, repo: Repo) -> None:
     loops = [s for s in t.body if isinstance(s, ast.While)]
     ck.ob("C13.3", fn, t, len(loops) == 1 and len(t.body) == 1, "the whole command loop is inside the try")
     ok = False
+    cfg = CFG(fn.node)
     for h in t.handlers:
         names = [dotted(x) for x in (h.type.elts if isinstance(h.type, ast.Tuple) else [h.type])] if h.type is not None else ["BaseException"]
         if "Exception" in names or "BaseException" in names:
@@ -497,12 +557,17 @@ def _worker(ck: Check, repo: Repo) -> None:
             okp = len(puts) == 1 and isinstance(puts[0].args[0], ast.Tuple) and len(puts[0].args[0].elts) == 4 and dotted(puts[0].args[0].elts[0]) == "index"
             ck.ob("C13.3", fn, puts[0] if puts else h, okp, "the handler reports (index, type, value, trace) on the error queue")
             if okp:
-                # type and value come from sys.exc_info()
+                # type and value come from sys.exc_info() called in this handler (fields 0 and 1 of its result, followed through the definitions that reach
+                # the put: unpacked, sliced, indexed, or used in place), or are `type(<e>)` / `<e>` of the exception the handler has bound (`except ... as <e>`)
                 el = puts[0].args[0].elts
-                infos = [s for s in walk_no_nested(h) if isinstance(s, ast.Assign) and isinstance(s.value, ast.Call) and call_name(s.value) == "sys.exc_info"
-                         and len(s.targets) == 1 and isinstance(s.targets[0], ast.Tuple) and len(s.targets[0].elts) == 3]
-                ck.ob("C13.3", fn, puts[0], any(isinstance(el[1], ast.Name) and isinstance(el[2], ast.Name) and [dotted(x) for x in s.targets[0].elts[:2]] == [el[1].id, el[2].id]
-                                                  for s in infos), "type and value are those of the active exception")
+                pn = cfg.node_of(puts[0])
+                inside = {id(x) for x in ast.walk(h)}
+                bound = lambda x: isinstance(x, ast.Name) and h.name is not None and x.id == h.name and pn is not None \
+                    and all(d.kind == "except" and d.ast is h for d in cfg.defs_reaching(pn, x.id)) and bool(cfg.defs_reaching(pn, x.id))
+                part = lambda x: set() if pn is None else _queue_fields(cfg, pn, x, source=lambda c: call_name(c) == "sys.exc_info" and id(c) in inside and not c.args and not c.keywords)
+                ok_t = part(el[1]) == {"item[0]"} or (isinstance(el[1], ast.Call) and call_name(el[1]) == "type" and len(el[1].args) == 1 and not el[1].keywords and bound(el[1].args[0]))
+                ok_v = part(el[2]) == {"item[1]"} or bound(el[2])
+                ck.ob("C13.3", fn, puts[0], ok_t and ok_v, "type and value are those of the active exception")
             sends = [c for c in calls_in(h) if call_name(c) == "pipe.send"]
             oks = len(sends) == 1 and isinstance(sends[0].args[0], ast.Tuple) and const_value(sends[0].args[0].elts[1]) is False
             ck.ob("C13.3", fn, sends[0] if sends else h, oks, "the handler answers the pending request with success=False so the parent does not block")
@@ -515,7 +580,6 @@ def _worker(ck: Check, repo: Repo) -> None:
     fin = [c for s in t.finalbody for c in _method_calls_on(s, envs, "close")]
     ck.ob("C13.3", fn, t, bool(fin), "the worker always closes its environment (finally)", construct="finally: env.close()")
     # successful answers carry True; unknown commands raise
-    cfg = CFG(fn.node)
     for c in calls_in(loops[0] if loops else fn.node):
         if call_name(c) == "pipe.send" and isinstance(c.args[0], ast.Tuple):
             ck.ob("C13.3", fn, c, const_value(c.args[0].elts[1]) is True, "a normal answer carries success=True")
@@ -581,6 +645,63 @@ def _is_callers_timeout(cfg: CFG, n: Optional[Node], e: Optional[ast.AST], seen:
     return n is not None and e is not None and walk(n, e, set()) is True
 
 
+def _open_facts(e: ast.AST, pol: bool, v: str) -> Set[str]:
+    """What a test with the given outcome says about pipe variable v: "there" (`v is not None`), "open" (`not v.closed`)."""
+    while isinstance(e, ast.UnaryOp) and isinstance(e.op, ast.Not):
+        e, pol = e.operand, not pol
+    if isinstance(e, ast.BoolOp) and isinstance(e.op, ast.And if pol else ast.Or):
+        return set().union(*[_open_facts(x, pol, v) for x in e.values])
+    if isinstance(e, ast.Compare) and len(e.ops) == 1 and isinstance(e.ops[0], (ast.IsNot, ast.NotEq) if pol else (ast.Is, ast.Eq)):
+        a, b = e.left, e.comparators[0]
+        if any(isinstance(x, ast.Name) and x.id == v and isinstance(y, ast.Constant) and y.value is None for x, y in ((a, b), (b, a))):
+            return {"there"}
+    if not pol and isinstance(e, ast.Attribute) and e.attr == "closed" and isinstance(e.value, ast.Name) and e.value.id == v:
+        return {"open"}
+    return set()
+
+
+def _pipes_selected(cfg: CFG, n: Optional[Node], it: ast.AST, depth: int = 0) -> Optional[Set[str]]:
+    """The iterable `it` (evaluated at node n) yields elements of self.parent_pipes: the facts known about each of them (see _open_facts) — none for the
+    container itself, those of the filter for a comprehension over it (directly or through locals bound once).  None: not (known to be) the pipes."""
+    if n is None or depth > 4:
+        return None
+    if dotted(it) == "self.parent_pipes":
+        return set()
+    if isinstance(it, ast.Name):
+        ds = cfg.defs_reaching(n, it.id)
+        v = cfg.value_of_def(ds[0], it.id) if len(ds) == 1 else None
+        return None if v is None else _pipes_selected(cfg, ds[0], v, depth + 1)
+    if isinstance(it, ast.Call) and call_name(it) in ("list", "tuple") and len(it.args) == 1 and not it.keywords:
+        return _pipes_selected(cfg, n, it.args[0], depth + 1)
+    if isinstance(it, (ast.ListComp, ast.GeneratorExp)) and len(it.generators) == 1 and isinstance(it.generators[0].target, ast.Name) \
+            and isinstance(it.elt, ast.Name) and it.elt.id == it.generators[0].target.id:
+        g = it.generators[0]
+        inner = _pipes_selected(cfg, n, g.iter, depth + 1)
+        return None if inner is None else inner.union(*[_open_facts(c, True, g.target.id) for c in g.ifs])
+    return None
+
+
+def _on_open_pipe(cfg: CFG, fn: ast.AST, c: ast.Call) -> bool:
+    """The receiver of call c is the element variable of an enclosing loop over the parent pipes, and at the call it is known to be neither None nor closed."""
+    n = cfg.node_of(c)
+    v = c.func.value.id
+    if n is None:
+        return False
+    facts: Optional[Set[str]] = None
+    for loop in [l for l in ast.walk(fn) if isinstance(l, ast.For) and any(x is c for x in ast.walk(l))]:
+        if v in _elem_vars(ast.For(target=loop.target, iter=loop.iter, body=[], orelse=[]), "parent_pipes", scope=fn):
+            facts = set()
+        elif isinstance(loop.target, ast.Name) and loop.target.id == v:
+            facts = _pipes_selected(cfg, cfg.node_of(loop.iter), loop.iter)
+        if facts is not None:
+            inside = {id(x) for x in ast.walk(loop)}
+            for test, pol, tn in cfg.guards_at(n):
+                if id(tn.stmt) in inside:
+                    facts = facts | _open_facts(test, pol, v)
+            return {"there", "open"} <= facts
+    return False
+
+
 def _close(ck: Check, repo: Repo, cls: Cls) -> None:
     fn = cls.methods.get("close_extras")
     if fn is None:
@@ -625,11 +746,13 @@ def _close(ck: Check, repo: Repo, cls: Cls) -> None:
     # graceful branch: send close to every open pipe, then receive the acknowledgement
     if tests:
         els = tests[0].stmt.orelse
-        ploops = _loops_over(ast.Module(body=els, type_ignores=[]), "parent_pipes")
-        # per loop over the pipes (v = its element variable, computed): the open-pipe test, the close message, the acknowledgement
-        n_open = sum(len(find(l, f'{v} is not None and (not {v}.closed)', env_key=l)) for l, vs in ploops for v in sorted(vs))
-        ck.ob("C13.5", fn, els[0] if els else fn.node, n_open >= 2 and any(has(l, f"{v}.send(('close', None))", env_key=l) for l, vs in ploops for v in sorted(vs))
-              and any(_method_calls_on(l, vs, "recv") for l, vs in ploops),
+        # every send / receive of the branch goes to an element of self.parent_pipes that is known to be open at that point (not None, not closed): by the
+        # tests around the call or by the filter of the list the loop runs over; the close message is sent and an answer is received
+        gm = ast.Module(body=els, type_ignores=[])
+        sites = [c for c in calls_in(gm) if isinstance(c.func, ast.Attribute) and c.func.attr in ("send", "recv") and isinstance(c.func.value, ast.Name)]
+        open_sites = [c for c in sites if _on_open_pipe(cfg, fn.node, c)]
+        ck.ob("C13.5", fn, els[0] if els else fn.node, bool(sites) and len(open_sites) == len(sites)
+              and any(c.func.attr == "send" and has(c, "$p.send(('close', None))") for c in open_sites) and any(c.func.attr == "recv" for c in open_sites),
               "graceful: close is sent to, and acknowledged by, every pipe that is still open (failed workers skipped)")
     # closing pipes and joining post-dominate the entry (normal paths)
     pipe_vars, proc_vars = _elem_vars(fn.node, "parent_pipes"), _elem_vars(fn.node, "processes")
@@ -673,6 +796,9 @@ _AV = "agilerl/vector/pz_async_vec_env.py"
 _PV = "agilerl/vector/pz_vec_env.py"
 _CLOSE_SRC = "    def close(self, **kwargs: Any) -> None:\n        \"\"\"\n        Clean up the environments' resources.\n        \"\"\"\n        if self.closed:\n            return\n\n        self.close_extras(**kwargs)"
 _REAP_SRC = "        for pipe in self.parent_pipes:\n            if pipe is not None:\n                pipe.close()\n        for process in self.processes:\n            process.join()"
+_TIMEOUT_SRC = "        if not self._poll_pipe_envs(timeout):\n            self._state = AsyncState.DEFAULT\n            raise mp.TimeoutError(\n                f\"The call to `call_wait`"
+_GRACEFUL_SRC = "            for pipe in self.parent_pipes:\n                if (pipe is not None) and (not pipe.closed):\n                    pipe.send((\"close\", None))\n\n            for pipe in self.parent_pipes:\n                if (pipe is not None) and (not pipe.closed):\n                    pipe.recv()\n"
+_REPORT_SRC = "        error_type, error_message, _ = sys.exc_info()\n        trace = traceback.format_exc()\n        error_queue.put((index, error_type, error_message, trace))"
 VARIANTS = [
     ("close-catches-builtin-timeout", _AV, "        except mp.TimeoutError:\n            terminate = True", "        except TimeoutError:\n            terminate = True", "fire", "C13.5"),
     ("step-wait-stops-at-first-failed-worker", _AV, "            if success:\n                for agent in self.agents:\n                    rewards[agent].append(env_step_return[0][agent])", "            if not success:\n                break\n            if success:\n                for agent in self.agents:\n                    rewards[agent].append(env_step_return[0][agent])", "fire", "C13.3"),
@@ -744,6 +870,26 @@ VARIANTS = [
     ("close-wait-timeout-through-a-local-ok", _AV, "                function(timeout)", "                limit = timeout\n                function(timeout=limit)", "silent", None),
     ("raise-hoisted-out-of-the-drain-loop-ok", _AV, "        for i in range(num_errors):\n            index, exctype, value, trace = self.error_queue.get()\n", "        last = None\n        for i in range(num_errors):\n            index, kind, payload, trace = self.error_queue.get()\n            last = (kind, payload)\n            exctype, value = last\n", "silent", None),
     ("raise-value-and-trace-exchanged", _AV, "                raise exctype(value)", "                raise exctype(trace)", "fire", "C13.3"),
+    # ---- the benign refactorings of round 4, one piece at a time
+    # the timeout block with the poll answer tested positively / held in a local: the "failed" side is the else branch or the fall-through
+    ("wait-timeout-on-the-else-branch-ok", _AV, _TIMEOUT_SRC, "        if self._poll_pipe_envs(timeout):\n            pass\n        else:\n            self._state = AsyncState.DEFAULT\n            raise mp.TimeoutError(\n                f\"The call to `call_wait`", "silent", None),
+    ("wait-timeout-answer-in-a-local-ok", _AV, _TIMEOUT_SRC, "        answered = self._poll_pipe_envs(timeout)\n        if not answered:\n            self._state = AsyncState.DEFAULT\n            raise mp.TimeoutError(\n                f\"The call to `call_wait`", "silent", None),
+    ("wait-timeout-raised-when-the-poll-succeeded", _AV, _TIMEOUT_SRC, "        if self._poll_pipe_envs(timeout):\n            self._state = AsyncState.DEFAULT\n            raise mp.TimeoutError(\n                f\"The call to `call_wait`", "fire", "C13.4"),
+    ("wait-timeout-else-branch-keeps-state", _AV, _TIMEOUT_SRC, "        if self._poll_pipe_envs(timeout):\n            pass\n        else:\n            raise mp.TimeoutError(\n                f\"The call to `call_wait`", "fire", "C13.4"),
+    ("wait-timeout-state-reset-on-the-wrong-branch", _AV, _TIMEOUT_SRC, "        if self._poll_pipe_envs(timeout):\n            self._state = AsyncState.DEFAULT\n        else:\n            raise mp.TimeoutError(\n                f\"The call to `call_wait`", "fire", "C13.4"),
+    ("wait-timeout-builtin-exception", _AV, _TIMEOUT_SRC, "        if not self._poll_pipe_envs(timeout):\n            self._state = AsyncState.DEFAULT\n            raise TimeoutError(\n                f\"The call to `call_wait`", "fire", "C13.4"),
+    # the open pipes of the graceful shutdown computed once
+    ("close-graceful-open-pipes-listed-once-ok", _AV, _GRACEFUL_SRC, "            pipes = [p for p in self.parent_pipes if p is not None and not p.closed]\n            for pipe in pipes:\n                pipe.send((\"close\", None))\n\n            for pipe in pipes:\n                pipe.recv()\n", "silent", None),
+    ("close-graceful-open-test-split-ok", _AV, _GRACEFUL_SRC, "            for pipe in self.parent_pipes:\n                if pipe is None or pipe.closed:\n                    continue\n                pipe.send((\"close\", None))\n\n            for pipe in (p for p in self.parent_pipes if p is not None):\n                if not pipe.closed:\n                    pipe.recv()\n", "silent", None),
+    ("close-graceful-listed-pipes-may-be-closed", _AV, _GRACEFUL_SRC, "            pipes = [p for p in self.parent_pipes if p is not None]\n            for pipe in pipes:\n                pipe.send((\"close\", None))\n\n            for pipe in pipes:\n                pipe.recv()\n", "fire", "C13.5"),
+    ("close-graceful-acknowledgement-from-missing-pipes", _AV, _GRACEFUL_SRC, "            pipes = [p for p in self.parent_pipes if p is not None and not p.closed]\n            for pipe in pipes:\n                pipe.send((\"close\", None))\n\n            for pipe in self.parent_pipes:\n                pipe.recv()\n", "fire", "C13.5"),
+    # the worker's report: exc_info sliced / indexed instead of unpacked into three locals, or taken from the exception the handler binds
+    ("worker-exc-info-sliced-ok", _AV, _REPORT_SRC, "        error_type, error_value = sys.exc_info()[:2]\n        error_queue.put((index, error_type, error_value, traceback.format_exc()))", "silent", None),
+    ("worker-exc-info-indexed-ok", _AV, _REPORT_SRC, "        info = sys.exc_info()\n        error_queue.put((index, info[0], info[1], traceback.format_exc()))", "silent", None),
+    ("worker-exception-bound-by-the-handler-ok", _AV, "    except (KeyboardInterrupt, Exception):\n" + _REPORT_SRC, "    except (KeyboardInterrupt, Exception) as err:\n        error_queue.put((index, type(err), err, traceback.format_exc()))", "silent", None),
+    ("worker-exc-info-slice-shifted", _AV, _REPORT_SRC, "        error_type, error_value = sys.exc_info()[1:]\n        error_queue.put((index, error_type, error_value, traceback.format_exc()))", "fire", "C13.3"),
+    ("worker-exc-info-type-and-value-exchanged", _AV, _REPORT_SRC, "        error_value, error_type = sys.exc_info()[:2]\n        error_queue.put((index, error_type, error_value, traceback.format_exc()))", "fire", "C13.3"),
+    ("worker-reports-the-type-of-the-type", _AV, _REPORT_SRC, "        error_type, error_value = sys.exc_info()[:2]\n        error_queue.put((index, type(error_type), error_value, traceback.format_exc()))", "fire", "C13.3"),
 ]
 
 
